@@ -1,7 +1,8 @@
 #!/venv/bin/python
 """Development helper: run the owning property's check against every seeded change in parallel,
 each in its own scratch worktree of /repo's HEAD (VERIF_REPO), evidence redirected away from /verif.
-  tools/mutants_all.py <dir-with-<ID>/m<k>/patch.diff> [tier] [only-ids...]
+  tools/mutants_all.py <dir-with-<ID>/m<k>/patch.diff> [tier] [only...]      only: C09 | C09/m2 | C03/m1@C15 (run C15's check)
+  MUT_VERIF=<copy of /verif> runs the checks of that copy (so that /verif can be edited meanwhile)
 (The recorded confirmation of a kept change uses tools/mutant.py keep, which applies it to /repo itself.)"""
 import json, os, shutil, subprocess, sys, tempfile
 from concurrent.futures import ThreadPoolExecutor
@@ -16,10 +17,10 @@ def one(root, pid, m, tier, check_pid=None):
         if r.returncode != 0:
             return pid, m, "NOAPPLY", r.stderr.decode()[:200]
         env = dict(os.environ, VERIF_REPO=wt, VERIF_EVIDENCE_DIR=ev, VERIF_REPLAY_DIR=ev)
-        r = subprocess.run("cd /verif && ./check %s --tier %s" % (check_pid or pid, tier), shell=True, capture_output=True, env=env)
+        r = subprocess.run("cd %s && ./check %s --tier %s" % (os.environ.get("MUT_VERIF", "/verif"), check_pid or pid, tier), shell=True, capture_output=True, env=env)
         out = r.stdout.decode()
         lines = [l for l in out.splitlines() if l.startswith(("VIOLATION", "failing clause", "OK ", "MACHINERY", "KNOWN"))]
-        return pid, m, {0: "MISSED", 1: "DETECTED", 2: "MACHINERY"}.get(r.returncode, str(r.returncode)), " | ".join(lines)[:400]
+        return pid + ("@" + check_pid if check_pid else ""), m, {0: "MISSED", 1: "DETECTED", 2: "MACHINERY"}.get(r.returncode, str(r.returncode)), " | ".join(lines)[:400]
     finally:
         subprocess.run("git -C /repo worktree remove --force %s" % wt, shell=True, capture_output=True)
         shutil.rmtree(wt, ignore_errors=True); shutil.rmtree(ev, ignore_errors=True)
@@ -27,15 +28,24 @@ def one(root, pid, m, tier, check_pid=None):
 def main():
     root = sys.argv[1]; tier = sys.argv[2] if len(sys.argv) > 2 else "quick"
     only = sys.argv[3:]
+    sel = {}
+    for o in only:
+        o, _, chk = o.partition("@")
+        pid, _, m = o.partition("/")
+        sel.setdefault(pid, []).append((m or None, chk or None))
     jobs = []
     for pid in sorted(os.listdir(root)):
-        if not os.path.isdir(os.path.join(root, pid)) or (only and pid not in only): continue
+        if not os.path.isdir(os.path.join(root, pid)) or (only and pid not in sel): continue
         if not os.path.exists("/verif/props/%s.py" % pid): continue
         for m in sorted(os.listdir(os.path.join(root, pid))):
             if os.path.exists(os.path.join(root, pid, m, "patch.diff")):
-                jobs.append((pid, m))
-    with ThreadPoolExecutor(3) as ex:
-        for res in ex.map(lambda j: one(root, j[0], j[1], tier), jobs):
+                if not only:
+                    jobs.append((pid, m, None))
+                for (mm, chk) in sel.get(pid, []):
+                    if mm in (None, m):
+                        jobs.append((pid, m, chk))
+    with ThreadPoolExecutor(int(os.environ.get('MUT_JOBS', '3'))) as ex:
+        for res in ex.map(lambda j: one(root, j[0], j[1], tier, j[2]), jobs):
             print(*res, flush=True)
 
 if __name__ == "__main__":
